@@ -587,9 +587,16 @@ pub fn miri_main(args: &[String]) -> ! {
 
 /// Runs `poulpy-sim miri <scenario> <backend> <n>` under Miri for seeds [from, to). Returns (ok, report excerpt).
 fn miri_run(scenario: &str, backend_name: &str, n: u32, from: u32, to: u32) -> (bool, String) {
+    miri_run_args(&["miri", scenario, backend_name, &n.to_string()], from, to, "MIRI-ENGINE-B: ok")
+}
+
+/// Runs `poulpy-sim <argv>` under Miri for Miri seeds [from, to); success = exit 0 and one `ok_marker` line per seed.
+pub fn miri_run_args(argv: &[&str], from: u32, to: u32, ok_marker: &str) -> (bool, String) {
     let root = crate::driver::verif_root();
+    let mut args: Vec<&str> = vec!["+nightly", "miri", "run", "--quiet", "--"];
+    args.extend_from_slice(argv);
     let out = std::process::Command::new("cargo")
-        .args(["+nightly", "miri", "run", "--quiet", "--", "miri", scenario, backend_name, &n.to_string()])
+        .args(&args)
         .current_dir(format!("{root}/sim"))
         .env("CARGO_TARGET_DIR", format!("{root}/target/miri"))
         .env("CARGO_NET_OFFLINE", "true")
@@ -603,7 +610,7 @@ fn miri_run(scenario: &str, backend_name: &str, n: u32, from: u32, to: u32) -> (
         Ok(o) => {
             let so = String::from_utf8_lossy(&o.stdout).to_string();
             let se = String::from_utf8_lossy(&o.stderr).to_string();
-            let oks = so.matches("MIRI-ENGINE-B: ok").count() as u32;
+            let oks = so.matches(ok_marker).count() as u32;
             if o.status.success() && oks == to - from {
                 (true, String::new())
             } else {
@@ -612,10 +619,10 @@ fn miri_run(scenario: &str, backend_name: &str, n: u32, from: u32, to: u32) -> (
                 }
                 let interesting: Vec<&str> = se
                     .lines()
-                    .filter(|l| l.contains("error") || l.contains("Undefined Behavior") || l.contains("Data race") || l.contains("-->") || l.contains("MIRI-ENGINE-B"))
+                    .filter(|l| l.contains("error") || l.contains("Undefined Behavior") || l.contains("Data race") || l.contains("-->") || l.contains("MIRI-"))
                     .take(12)
                     .collect();
-                (false, format!("{} | {}", so.lines().filter(|l| l.contains("MIRI-ENGINE-B") && !l.contains(": ok")).collect::<Vec<_>>().join(" "), interesting.join(" / ")))
+                (false, format!("{} | {}", so.lines().filter(|l| l.contains("MIRI-") && !l.contains(": ok")).collect::<Vec<_>>().join(" "), interesting.join(" / ")))
             }
         }
     }
